@@ -385,6 +385,7 @@ pub fn step_strategy(cfg: &Cfg, p: Profile) -> BoxedStrategy<Step> {
     v.push((w(cfg.big_jumps && cfg.start_tick >= (1 << 16), if wrap { 2 } else { 5 }), (3u8..10).prop_map(|before| Step::ToWrap { before }).boxed()));
     v.push((w(cfg.refs, if cfg.prespawn { 8 } else { 3 }), (0..slots, 0..slots).prop_map(|(slot, target)| Step::SetRef { slot, target }).boxed()));
     v.push((w(cfg.refs, 1), (0..slots).prop_map(|slot| Step::DelRef { slot }).boxed()));
+    v.push((w(cfg.refs && !cfg.prespawn, 3), (0..slots, 0..slots).prop_map(|(holder, target)| Step::ForwardRef { holder, target }).boxed()));
     v.push((w(cfg.children, 4), (0..slots, 0..slots).prop_map(|(slot, parent)| Step::SetParent { slot, parent }).boxed()));
     v.push((w(cfg.children, 2), (0..slots).prop_map(|slot| Step::DelParent { slot }).boxed()));
     v.push((w(cfg.owners, 8), (0..slots, 0..slots).prop_map(|(slot, owner)| Step::SetOwner { slot, owner }).boxed()));
